@@ -109,7 +109,8 @@ Definition stail (s : sv) : sv :=
   match curQ s with
   | None => s
   | Some qc =>
-      if rdy s && negb (match qof s qc with Some (_ :: _) => false | _ => true end)
+      (* never for a client that has a request outstanding (repair of F19) *)
+      if rdy s && negb (match qof s qc with Some (_ :: _) => false | _ => true end) && (pendof s (cur s) =? 0)
       then let s1 := sdispatch s in upd_loc s1 false (cur s1) (curQ s1)
       else s
   end.
@@ -209,6 +210,8 @@ Definition sstep (l : slab) (s : sv) : sv :=
         | [] => s
         | c :: rest =>
             let s1 := upd_readyC s rest in
+            (* a ready token that finds a request outstanding for its client is stale and ignored (repair of F19) *)
+            if negb (pendof s1 c =? 0) then upd_loc s1 false c None else
             let s2 := ctx_deactivate s1 c in
             match qof s2 c with
             | Some _ => stail (upd_loc s2 true c (Some c))
